@@ -9,10 +9,10 @@ pub fn prop() -> Prop {
     Prop {
         id: "C17",
         level: "model_checking",
-        rule: "streams of <=3 (thorough <=4) values over a 7-value core (incl. multi-line values and a multi-byte string) x 6 separator kinds (space, LF, CRLF, mixed run, touching, LF+indent), clean and with whitespace-delimited noise in one gap; deliveries: whole, 1-byte, greedy reads cut at EVERY set of <=2 offsets, Interrupted before every offset (singly and all at once), one file, FIFO with 3/7-byte writes; file partitions: EVERY composition of the value sequence into 1..4 files and EVERY cut inside the text (a value cut by a file boundary); --only-objects-and-arrays on/off; plus 7 tokens (number, multi-byte string, literal, escapes, containers) placed so that they straddle byte 8192 and 16384 of the input at every split position, read byte by byte, from a file and in 1 KiB/4 KiB/8 KiB chunks; non-trivial = >=2 values or a cut inside a value; distinct by construction",
+        rule: "streams of <=3 (thorough <=4) values over a 7-value core (incl. multi-line values and a multi-byte string) x 6 separator kinds (space, LF, CRLF, mixed run, touching, LF+indent), clean and with whitespace-delimited noise in one gap; deliveries: whole, 1-byte, greedy reads cut at EVERY set of <=2 offsets, Interrupted before every offset (singly and all at once), one file, FIFO with 3/7-byte writes; file partitions: EVERY composition of the value sequence into 1..4 files and EVERY cut inside the text (a value cut by a file boundary); --only-objects-and-arrays on/off; plus 7 tokens (number, multi-byte string, literal, escapes, containers) placed so that they straddle byte 8192 and 16384 of the input at every split position, read byte by byte, from a file and in 1 KiB/4 KiB/8 KiB chunks; 300 and 1100 values one per line (LF, CRLF) and all on one line (indices, lines and columns beyond 255 / 65535) and spread over 10 files, one of them empty; non-trivial = >=2 values or a cut inside a value; distinct by construction",
         explanation: "(a) every delivery must give the byte-identical observation; (b) out(f1..fn) = out(f1)...out(fn) with all per-file selectors; (c) the seven &-selectors are compared with a location model on the input text: &index ordinal of processed values, &index-in-file per file, &file-name the path, [start,end) as byte offsets must contain the value's span from the strict reference reader, consecutive ranges contiguous on clean streams, lines counted by LF only",
         assumptions: COMMON_ASSUMPTIONS.to_vec(),
-        guards: vec!["token-straddles-a-buffer-boundary", "touching-values", "multi-line-value", "cut-inside-value", "greedy-chunking", "file-boundary-inside-value", "ooa-skips-scalar", "crlf", "fifo"],
+        guards: vec!["index-line-column-beyond-255", "token-straddles-a-buffer-boundary", "touching-values", "multi-line-value", "cut-inside-value", "greedy-chunking", "file-boundary-inside-value", "ooa-skips-scalar", "crlf", "fifo"],
         budget_s: (100, 1800),
         single_worker: false,
         run,
@@ -287,6 +287,79 @@ fn run(ctx: &mut Ctx) {
         }
     }
     ctx.level_done("tokens-straddling-byte-8192-and-16384-at-every-split");
+
+    // ---- counters beyond 255 / 65535: hundreds of values (one per line, and all on one very long line), 9 files
+    for (layout, sep) in [("one-per-line", "\n"), ("one-long-line", " "), ("crlf-lines", "\r\n")] {
+        for total in [300usize, 1100] {
+            if !ctx.mine() {
+                continue;
+            }
+            let mut text = String::new();
+            let mut vals: Vec<(V, usize, usize)> = Vec::new();
+            for i in 0..total {
+                let t = match i % 5 {
+                    0 => format!("{i}"),
+                    1 => format!("[{i}, \"x\"]"),
+                    2 => format!("\"s{i}{}\"", "z".repeat(i % 70)),
+                    3 => format!("{{\"k\": {i}}}"),
+                    _ => "true".to_string(),
+                };
+                let s = text.len();
+                text.push_str(&t);
+                vals.push((json::parse_str(&t), s, text.len()));
+                text.push_str(sep);
+            }
+            let st = Stream { text: text.clone().into_bytes(), vals, clean: true, desc: format!("{total} values {layout}") };
+            ctx.guard("index-line-column-beyond-255");
+            for ooa in [false, true] {
+                let a = args_ctx(ooa, true, true, "ignore");
+                let base = Case::owned(a.clone(), st.text.clone());
+                let o = ctx.run(&base);
+                ctx.case_done();
+                ctx.trace_validated();
+                ctx.nontrivial();
+                match (o.res.is_ok(), rows_of(&o)) {
+                    (true, Ok(rows)) => {
+                        if let Some((clause, e, g)) = check_context(&rows, &st, ooa, 0, None, true) {
+                            ctx.violation(&clause, &format!("stdin: {} ooa={ooa}", st.desc), &[base.clone()], e, g);
+                        } else {
+                            ctx.outcome("context-ok");
+                        }
+                    }
+                    _ => ctx.violation("run-failed", &format!("stdin: {}", st.desc), &[base.clone()], "Ok".into(), o.res.short()),
+                }
+                // the same values spread over 9 files: &index runs on, &index-in-file restarts
+                if !ooa && total == 300 {
+                    let a2 = vec!["--select=&index=i".to_string(), "--select=&index-in-file=j".into(), "--select=&file-name=f".into(), "--select=.=v".into()];
+                    let per = total / 9 + 1;
+                    let mut files: Vec<(String, Vec<u8>)> = Vec::new();
+                    let mut expected: Vec<(usize, usize, String)> = Vec::new();
+                    for (fi, chunk) in st.vals.chunks(per).enumerate() {
+                        let name = format!("part{fi}.json");
+                        let body: String = chunk.iter().map(|(v, _, _)| format!("{}{sep}", json::to_text(v))).collect();
+                        for (j, _) in chunk.iter().enumerate() {
+                            expected.push((expected.len(), j, name.clone()));
+                        }
+                        files.push((name, body.into_bytes()));
+                    }
+                    // an empty file in the middle must not disturb the numbering
+                    files.insert(4, ("empty.json".into(), Vec::new()));
+                    let fcase = Case { args: a2, input: Input::Files(files), rplan: ReadPlan::default(), wplan: WritePlan::default() };
+                    let fo = ctx.run(&fcase);
+                    ctx.case_done();
+                    let rows = rows_of(&fo).unwrap_or_default();
+                    let ok = fo.res.is_ok()
+                        && rows.len() == expected.len()
+                        && rows.iter().zip(expected.iter()).all(|(r, (i, j, f))| num(r, "i") == Some(*i as i128) && num(r, "j") == Some(*j as i128) && matches!(r.get("f"), Some(V::Str(g)) if g.ends_with(f.as_str())));
+                    if !ok {
+                        let bad = rows.iter().zip(expected.iter()).position(|(r, (i, j, f))| !(num(r, "i") == Some(*i as i128) && num(r, "j") == Some(*j as i128) && matches!(r.get("f"), Some(V::Str(g)) if g.ends_with(f.as_str()))));
+                        ctx.violation("index-across-many-files", &format!("10 files {layout}"), &[fcase.clone()], format!("{} rows; &index 0..{}, &index-in-file restarting per file", expected.len(), expected.len() - 1), format!("{} rows, first wrong row {:?}: {}", rows.len(), bad, bad.and_then(|b| rows.get(b)).map(json::to_text).unwrap_or_default()));
+                    }
+                }
+            }
+        }
+    }
+    ctx.level_done("hundreds-of-values(lines-and-columns-beyond-255/65535,10-files)");
 }
 
 fn one_stream(ctx: &mut Ctx, st: &Stream, ooa: bool) {
